@@ -38,8 +38,7 @@ META = {
 }
 
 LEVELS = ["Q0", "Q2", "Q9"]
-# language features of gen/progen.py used here (macros, exceptions and overloading are rendered in the preamble of a
-# unit and are not split; halt is C03's subject)
+# language features of gen/progen.py used here (plus try and mac with probability 0.3; halt is C03's subject, overloading is not used)
 STABLE_FEATURES = ["bi", "str", "while", "for", "exit", "list", "arr", "rec", "un", "clos", "gen", "brk", "rec_fun", "dom"]
 
 
@@ -48,12 +47,18 @@ def models(chk, tier):
     cfgs = ["SIntReduce8", "SIntReduce64"] + (["SIntReduce12", "SIntReduce16"] if tier != "quick" else [])
     with concurrent.futures.ThreadPoolExecutor(max_workers=4) as ex:
         fu = ex.submit(vlib.tlc, "Units", "Units", workers=2, timeout=300, coverage=True)
+        fd = ex.submit(vlib.tlc, "Units", "UnitsDeep", workers=2, timeout=600) if tier != "quick" else None
         fr = [(cfg, ex.submit(vlib.tlc, "SIntReduce", cfg, workers=4, timeout=1200)) for cfg in cfgs]
         r = fu.result()
         rs = [(cfg, f.result()) for cfg, f in fr]
     chk.add_tlc("Units", r)
     if r.violated:
         chk.violation("Units.tla violates %s" % r.violated, r.trace_text, key={"model": "Units", "inv": r.violated})
+    if fd is not None:         # model only: chains of up to 7 saved forms, 4 movable definitions
+        rd = fd.result()
+        chk.add_tlc("UnitsDeep", rd)
+        if rd.violated:
+            chk.violation("Units.tla (UnitsDeep) violates %s" % rd.violated, rd.trace_text, key={"model": "UnitsDeep", "inv": rd.violated})
     paths, splits = {}, {}
     for l in r.printed:
         if isinstance(l, str) and l.startswith("PATH "):
@@ -116,7 +121,8 @@ def family(chk, n):
     progs = [wide_all_program(), wide_all_program(base, "widerand")]
     for i in range(n):
         rf = random.Random(base * 31 + i)
-        g = progen.ProgGen(base * 100003 + i, features=["fun"] + [f for f in STABLE_FEATURES if rf.random() < 0.6])
+        feats = ["fun"] + [f for f in STABLE_FEATURES if rf.random() < 0.6] + [f for f in ("try", "mac") if rf.random() < 0.3]
+        g = progen.ProgGen(base * 100003 + i, features=feats)
         # functions generated before any file-level variable exists cannot capture one: they can be moved into a library unit
         for _ in range(2):
             g.function()
@@ -261,7 +267,7 @@ def run(chk, tier):
     wd = vlib.scratch("c05")
     rnd = random.Random(chk.seed)
     quick = tier == "quick"
-    nprog = 11 if quick else 30
+    nprog = 9 if quick else 30
     nsplit = 5 if quick else 30
     ncorpus = 3 if quick else 10
     units.Tree.TIMEOUT = 25 if quick else 90
@@ -272,7 +278,7 @@ def run(chk, tier):
         paths, splits = fm_.result()
     direct = [p for p in paths if not p["chain"]]
     indirect = [p for p in paths if p["chain"]]
-    per_prog = 26 if quick else len(indirect)
+    per_prog = 30 if quick else len(indirect)
     jobs = []
     for p in fam.replayable:
         jobs.append(Job(b, wd, p["id"], render.render(p), fam.exp[p["id"]], prog=p))
@@ -293,11 +299,11 @@ def run(chk, tier):
             p = deck[pi % len(deck)]
             pi += 1
             chosen[(p["level"], tuple(p["chain"]), p["final"])] = p
-        if j.pid in ("wideall", "widerand"):
+        if j.pid == "wideall" or (j.pid == "widerand" and not quick):
             chosen = {(p["level"], tuple(p["chain"]), p["final"]): p for p in indirect if len(p["chain"]) <= (2 if quick else 4)}
         if j.prog is not None:
             el = render.lib_eligible(j.prog)
-            if len(el) >= 3:
+            if len(el) >= 3 and not j.prog.get("exns"):        # exception categories are defined per unit: such programs are not split
                 # the three movable definitions of Units.tla: top-level domains when the program has some, and functions
                 own = [i for i in el if not j.prog["funs"][i]["name"].startswith(("x", "wf"))]
                 rnd.shuffle(own)
@@ -584,6 +590,68 @@ def corrupt_trace(path, how):
     vlib.write_ndjson(path, evs)
 
 
+def replay(d):
+    """bin/verif replay C05 <file>: perform the recorded path again with the compiler built from the working tree and show
+    the commands, their outcome and the first difference (informational; the verdict is the check's)."""
+    det = d.get("detail") or {}
+    if "path" not in det or "source" not in det:
+        return 0
+    b = vlib.vbuild()
+    wd = vlib.scratch("c05replay")
+    p = det["path"]
+    t = units.Tree(b, wd, det["source"], p["level"])
+    chain = tuple(p["chain"])
+    for i in range(len(chain)):
+        n = t.node(chain[:i + 1])
+        print("step %s -> %s: %s" % ((("src",) + chain)[i], chain[i], "ok" if n["ok"] else "FAILED"))
+        if not n["ok"]:
+            print((n["res"] or {}).get("cmd"), "\n", ((n["res"] or {}).get("out") or "")[:2000])
+            return 0
+    f = t.final(chain, p["final"])
+    g = t.final((), p["final"])
+    print("final %s: %s (direct: %s)" % (p["final"], "ok" if f["ok"] else "FAILED", "ok" if g["ok"] else "FAILED"))
+    for name, x in (("saved", f), ("direct", g)):
+        r = x.get("run") or x.get("res")
+        if r:
+            print("--", name, r.get("cmd"), "rc=%s" % r.get("rc"), "\n", (r.get("out") or "")[:1500], (r.get("err") or "")[:500])
+    if f["ok"] and g["ok"] and p["final"] in units.TEXTS:
+        a = units.TextForm(p["final"], open(g["file"], "rb").read())
+        c = units.TextForm(p["final"], open(f["file"], "rb").read())
+        print("bytes equal after the file-name line:", a.named == c.named, " re-expressed constants in the saved form's text:", len(c.exprs()))
+        print(json.dumps(units.first_diff(a.named.decode("latin-1"), c.named.decode("latin-1")), indent=1))
+    return 0
+
+
 SELFTEST_NOTES = """
-(filled in below by the builder)
+Binding demonstration (2026-10-04; each mutation in a scratch worktree of /repo, `VERIF_SRC=<wt>/aldor/aldor/src bin/verif check C05
+--tier quick`, worktree removed afterwards).  All caught with VIOLATION lines, exit 1:
+
+ M1 foam.c foamSIntReduce   `parts[i] = number & 0x7fffffff` -> `& 0x7ffffffe`
+      commute c/fm/lsp (value TLC computes for the re-expression differs from the source's constant), run/exe from .ao print wrong
+      numbers, split program differs; also "the directly compiled program does not conform" for -Ginterp (it loads the flat FOAM).
+ M2 foam.c foamSIntReduce   final `if (negative)` -> `if (0)` (Negate dropped)                        same classes as M1.
+ M3 foam.c foamToBuffer     `bufPutByte(buf,bint->isNeg)` -> `bufPutByte(buf,0)` (sign of big integers lost in the .ao)
+      commute c/fm/lsp from .ao ("tokens-differ"), run/exe from .ao wrong-output, split wrong-output.
+ M4 sexpr.c string writer   backslash no longer escaped (`*str == '"' || *str == '\\'` -> `*str == '"'`)
+      commute lsp via .fm (strings of the extreme-constant family hold backslashes).
+ M5 lib.c libPutSymev       type hash code of exported symbols written as `symeTypeCode(syme) ^ 2`
+      every split fails: client cannot use the library ("Bug: libSymeTypeNo: cannot find ...", "axlcat.ao is newer than ...").
+ (first attempt of M1/M2 ended in MACHINERY-ERROR "23 of 45 (program, level) pairs fail without any saved form": the check then
+  skipped every program whose direct run was wrong; the rule was narrowed: only a wrong behaviour shared by interpreter AND
+  executable, or a failing direct compilation, puts a (program, level) aside -- recorded in coverage.direct_failures.)
+
+Model-level (scratch copies of spec/SIntReduce.tla): dropping the final NegE, or splitting c instead of |c|, violates Theorem in
+SIntReduce8 and SIntReduce64; Hunks without the rounding-up term makes TLC fail on c = 2^(W-2) (index 0 = the C text's parts[-1]);
+a logical instead of the arithmetic shift and an unwrapped ShiftUp are NOT distinguishable (for c = -2^(W-1) both give the right
+value: only the bits that stay in the word matter) -- so the C text's reliance on signed >> is harmless.  TLC coverage of the
+Units.tla actions Save/Observe/Split/LinkRun is required to be non-zero.
+
+Corrupted record (VERIF_C05_CORRUPT=<how> changes one field of one event of the recorded trace before TraceUnits reads it):
+   raw  (digest of a re-saved .fm)      -> BAD "identity: Resave changed the bytes"           -> VIOLATION
+   nt   (digest of a text from .ao)     -> BAD "commute: text from the saved form differs"    -> VIOLATION
+   od   (digest of a run's output)      -> BAD "behaviour: the run differs from the direct run" -> VIOLATION
+   step (Archive step renamed ao -> ao) -> BAD "illegal step" (not a step of Units.tla)       -> VIOLATION
+
+Unchanged tree: holds with KNOWN-FINDING lines (seeds 20261004, 12345); with hooks/fix-C05-fm-gdecl-rtype.diff and
+hooks/fix-C05-fm-wide-sint.diff applied to a worktree it holds without any (seeds 20261004, 777).
 """
